@@ -1,4 +1,5 @@
 import InfluxQL.Lemmas.Quote
+import InfluxQL.Lemmas.QuoteConv
 /-!
 # C06 — quoting helpers invert the lexer and cannot be broken out of
 
@@ -122,6 +123,24 @@ theorem bare_ident_scans (r : Cursor) (s : List Char) (x : Char) (t : List Char)
   rcases hy with rfl | hy
   · exact (isIdentFirstChar_facts hc).2.2.1
   · exact htl y hy
+
+/-- **C06 (`IdentNeedsQuotes`, exactness).** For every non-empty expressible `s` and every
+separating follower `x` (a character that can neither continue an identifier nor open a quoted
+one, and is not NUL): `IdentNeedsQuotes(s)` is false *exactly when* `s` written bare scans as the
+single identifier `s` covering exactly the runes of `s`. -/
+theorem identNeedsQuotes_iff (r : Cursor) (s : List Char) (x : Char) (t : List Char) (hs : s ≠ [])
+    (hex : Expressible s) (h : r.rest.map Prod.fst = s ++ x :: t)
+    (hx : isIdentChar x = false) (hxq : x ≠ '"') (hxe : x ≠ eofRune) :
+    identNeedsQuotes s = false ↔
+      ((scan r).1.tok = .IDENT ∧ (scan r).1.lit = s ∧ (scan r).2.rest.map Prod.fst = x :: t) := by
+  constructor
+  · intro hn
+    exact scan_bareIdent r s x t hs hn h hx hxq hxe
+  · rintro ⟨h1, h2, h3⟩
+    have hlen : (scan r).2.rest.length = t.length + 1 := by
+      have := congrArg List.length h3
+      simpa using this
+    exact scan_ident_implies_no_quotes r s x t hs hex h hx hxq hxe h1 h2 hlen
 
 /-- Keywords always need quotes (every generated keyword, in its canonical lower-case spelling). -/
 theorem keywords_need_quotes : ∀ p ∈ keywords, identNeedsQuotes p.1 = true := by decide +kernel
